@@ -1014,7 +1014,10 @@ impl SolarDay {
   pub fn get_solar_week(&self, start: usize) -> SolarWeek {
     let y: isize = self.get_year();
     let m: usize = self.get_month();
-    SolarWeek::from_ym(y, m, ((self.day + SolarDay::from_ymd(y, m, 1).get_week().next(-(start as isize)).get_index()) as f64 / 7.0).ceil() as usize - 1, start)
+    let first_day: SolarDay = SolarDay::from_ymd(y, m, 1);
+    // position inside the month (1-based) by day count, not by day-of-month number (October 1582 has no days 5-14)
+    let position: usize = (self.subtract(first_day) + 1) as usize;
+    SolarWeek::from_ym(y, m, ((position + first_day.get_week().next(-(start as isize)).get_index()) as f64 / 7.0).ceil() as usize - 1, start)
   }
 
   /// 节气
